@@ -894,6 +894,11 @@ def normalise_rule(ctx):
         ok = rn is not None and (fam in camel or rn)
         obs.append(ob("C04.normalise/%s" % fam, ok, ctx.where(f), "`%s:` names: camel-cased by the parser: %s; by the runtime entry point R.%s: %s" % (fam.lower(), fam in camel, method, rn),
                       witness=None if ok else "`%s:my-prop` is registered under `my-prop`, which no component property is called" % fam.lower()))
+    # ... and only there: every other family (mark:, data:, event names, generic:, extra-attr:, plain attributes of non-components) hands
+    # its name to the runtime as written; `Normal` is listed when the arm normalises under a condition of its own (component properties)
+    extra = sorted(camel - {"Model", "Change", "Worklet", "SlotDataRef"})
+    obs.append(ob("C04.normalise/only", not extra, ctx.where(f), "names are camel-cased for the property families only (%s)" % sorted(camel) if not extra else "the parser also camel-cases the names of %s" % extra,
+                  witness=None if not extra else "`mark:item-id` reaches the runtime as `itemId`: the mark the listener reads is `item-id`"))
     ok = ("SlotDataRef" in camel) == slot_normal
     obs.append(ob("C04.normalise/slot-values", ok, ctx.where(f), "slot value names are camel-cased where they are provided (<slot my-val>): %s and where they are referenced (slot:my-val): %s" % (slot_normal, "SlotDataRef" in camel),
                   witness=None if ok else "`<slot my-val=..>` / `slot:my-val` no longer meet under one name"))
